@@ -1,11 +1,72 @@
-/- Oracle operations, group Bip32 (see /verif/CONVENTIONS.md). -/
+/- Oracle operations, group Bip32 (C07): the model of /repo/bip32 run with `Prim` (HMAC-SHA512,
+   secp256k1, HASH160) as the independent implementation. -/
 import BtcVerif.Oracle.Util
+import BtcVerif.Model.Bip32
+import BtcVerif.Spec.Bip32
+import BtcVerif.Prim.HMAC
+import BtcVerif.Prim.RIPEMD160
 
 namespace BtcVerif.Oracle
-open BtcVerif
+open BtcVerif BtcVerif.Model BtcVerif.Model.Bip32
+
+def pairStr (o : Outcome (Bytes × Bytes)) : String :=
+  outcomeStr (fun r => s!"{hexOf r.1} {hexOf r.2}") o
+
+/-- `-` is the empty path, otherwise decimal `uint32` values separated by commas -/
+def parsePath (s : String) : Option (List Nat) :=
+  if s == "-" then some [] else
+  (s.splitOn ",").mapM fun t => do
+    let v ← t.toNat?
+    if v < 2 ^ 32 then some v else none
 
 def opBip32 (op : String) (args : List String) : Option String :=
   match op, args with
+  | "bip32.master", [s] => do
+    let seed ← parseHex s
+    some (pairStr (masterKey Prim.hmacSha512 seed))
+  | "bip32.ckdpriv", [k, c, i] => do
+    let k ← parseHex k
+    let c ← parseHex c
+    let i ← i.toNat?
+    if i < 2 ^ 32 then some (pairStr (ckdPriv secp Prim.hmacSha512 k c i)) else none
+  | "bip32.ckdpub", [k, c, i] => do
+    let k ← parseHex k
+    let c ← parseHex c
+    let i ← i.toNat?
+    if i < 2 ^ 32 then some (pairStr (ckdPub secp Prim.hmacSha512 k c i)) else none
+  | "bip32.path", [kind, k, c, p] => do
+    let k ← parseHex k
+    let c ← parseHex c
+    let p ← parsePath p
+    if kind == "priv" then some (pairStr (derivePriv secp Prim.hmacSha512 k c p))
+    else if kind == "pub" then some (pairStr (derivePub secp Prim.hmacSha512 k c p))
+    else none
+  -- the BIP32 transcription (independent of the regenerated guards) on in-domain inputs
+  | "bip32.ckdpriv.spec", [k, c, i] => do
+    let k ← parseHex k
+    let c ← parseHex c
+    let i ← i.toNat?
+    if i < 2 ^ 32 ∧ k.length = 32 then
+      match Spec.Bip32.ckdPriv secp Prim.hmacSha512 (beNat k) c i with
+      | some (k', c') => some s!"ok {hexOf (beBytes 32 k')} {hexOf c'}"
+      | none => some "skip"
+    else none
+  | "bip32.ckdpub.spec", [k, c, i] => do
+    let k ← parseHex k
+    let c ← parseHex c
+    let i ← i.toNat?
+    if i < 2 ^ 32 then
+      match secp.parse k with
+      | none => some "err"
+      | some pt =>
+        match Spec.Bip32.ckdPub secp Prim.hmacSha512 pt c i with
+        | .child K' c' => some s!"ok {hexOf (secp.compress K')} {hexOf c'}"
+        | .failure => some "err"
+        | .invalid => some "skip"
+    else none
+  | "bip32.fp", [k] => do
+    let k ← parseHex k
+    some (outcomeStr hexOf (keyFingerprint secp Prim.hash160 k))
   | _, _ => none
 
 end BtcVerif.Oracle
